@@ -186,19 +186,24 @@ func init() {
 	}
 	jobTable["C06"] = jobSet{
 		quick: []Job{
+			{Scenario: "prog/N=2/k=3/adaptive", Budgets: bs(B(0, 2)), Split: 1},
+			// the mailbox's timing: handshake timeout above the resend timeout
+			{Scenario: "prog/N=2/k=3/H=2s/adaptive", Budgets: bs(B(0, 2)), Split: 1},
+			{Scenario: "prog/N=2/k=2/R=200ms", Budgets: bs(B(0, 2)), Split: 1},
+			{Scenario: "prog/N=2/k=3/ka=2s,1s", Budgets: bs(B(0, 1)), Split: 1},
 			{Scenario: "prog/N=1/k=3", Budgets: bs(B(1, 1), B(0, 3)), Split: 1},
 			{Scenario: "prog/N=2/k=4", Budgets: bs(B(1, 1), B(0, 2)), Split: 1},
 			{Scenario: "prog/kind=bidi/N=2/k=2", Budgets: bs(B(1, 1), B(0, 2)), Split: 1},
-			{Scenario: "prog/N=2/k=3/adaptive", Budgets: bs(B(0, 2)), Split: 1},
-			{Scenario: "prog/N=2/k=3/ka=2s,1s", Budgets: bs(B(0, 2)), Split: 1},
 		},
 		thorough: []Job{
+			{Scenario: "prog/N=2/k=3/adaptive", Budgets: bs(B(1, 2), B(0, 3)), Split: 2},
+			{Scenario: "prog/N=2/k=3/H=2s/adaptive", Budgets: bs(B(1, 1), B(0, 3)), Split: 2},
+			{Scenario: "prog/N=2/k=2/R=200ms", Budgets: bs(B(1, 1), B(0, 3)), Split: 2},
+			{Scenario: "prog/N=2/k=3/ka=2s,1s", Budgets: bs(B(1, 1), B(0, 2)), Split: 2},
+			{Scenario: "prog/N=2/k=3/ka=5s,3s", Budgets: bs(B(0, 2)), Split: 1},
 			{Scenario: "prog/N=1/k=3", Budgets: bs(B(1, 3), B(2, 1)), Split: 2},
 			{Scenario: "prog/N=2/k=4", Budgets: bs(B(1, 2), B(0, 3)), Split: 2},
 			{Scenario: "prog/kind=bidi/N=2/k=2", Budgets: bs(B(1, 2), B(0, 3)), Split: 2},
-			{Scenario: "prog/N=2/k=3/adaptive", Budgets: bs(B(1, 2), B(0, 3)), Split: 2},
-			{Scenario: "prog/N=2/k=3/ka=2s,1s", Budgets: bs(B(1, 1), B(0, 3)), Split: 2},
-			{Scenario: "prog/N=2/k=3/ka=5s,3s", Budgets: bs(B(0, 2)), Split: 1},
 		},
 		quickS: 300, thoroughS: 1800,
 	}
